@@ -247,6 +247,11 @@ theorem no_scratch_helperF (v : String → Bool) (f : Bool) : mayCarry .helperF 
 theorem no_scratch_counter_dur (v : String → Bool) (f : Bool) :
     mayCarry .counterDur v genSt f = false :=
   okUncond_sound _ _ (by decide +kernel) v f
+/-- **No duration on ANY non-slice event** (counters, flow arrows, metadata, instants) behind the
+stages — in particular at the final sort, which is the last site (`C08.final_sort_last`). -/
+theorem no_nonslice_dur (v : String → Bool) (f : Bool) :
+    mayCarry .nonSliceDur v genSt f = false :=
+  okUncond_sound _ _ (by decide +kernel) v f
 /-- **No `TS_cycles` in the export**: its producer and its consumer are registered under the same
 condition (input events never carry the key). -/
 theorem no_scratch_ts_cycles (v : String → Bool) : mayCarry .tsCycles v genSt false = false :=
